@@ -1,6 +1,8 @@
 //! Harness bodies, part 2: cloning (C08), inline storage (C09), static text (C10),
 //! to_lean_string (C15), comparison traits (C17), layout/niche (C20).
 
+#[cfg(not(kani))]
+use crate::nk as kani;
 use crate::model::{self, ModelStr, MCAP};
 use crate::ops::{self, *};
 use crate::shim;
@@ -506,15 +508,18 @@ pub fn to_ls_strings(fam: u8, n: usize) {
 // ---------------------------------------------------------------------------------------------
 // C17: Eq / Ord / Hash / Display depend on the text alone
 // ---------------------------------------------------------------------------------------------
+/// A multiplication-free hasher (rotate-xor): FNV's 64-bit multiply per symbolic byte stalls the
+/// bit-blasting back end.  It is injective enough for the purpose: it folds every byte *and* counts
+/// the `write` calls, so a missing 0xff terminator or a different chunking changes the result.
 pub struct Fnv(pub u64, pub usize);
 impl core::hash::Hasher for Fnv {
     fn finish(&self) -> u64 {
-        self.0 ^ (self.1 as u64)
+        self.0 ^ ((self.1 as u64) << 56)
     }
     fn write(&mut self, bytes: &[u8]) {
         let mut i = 0;
         while i < bytes.len() {
-            self.0 = (self.0 ^ bytes[i] as u64).wrapping_mul(0x100000001b3);
+            self.0 = self.0.rotate_left(7) ^ (bytes[i] as u64) ^ ((i as u64) << 32);
             i += 1;
         }
         self.1 += 1; // number of write calls matters too (str hashing appends a 0xff terminator)
